@@ -11,6 +11,11 @@ From PegtlV.gen Require Import Uri_gen.
 Import ListNotations.
 Local Open Scope N_scope.
 
+Ltac foldb H := repeat match type of H with
+  | context [if ?a then ?b else false] => change (if a then b else false) with (andb a b) in H
+  | context [if ?a then true else ?b] => change (if a then true else b) with (orb a b) in H
+  end.
+
 Lemma lift_ov G MX f1 f2 d r c v : ov (evalx G C0 MX f1 d r c) = Some v -> (f1 <= f2)%nat -> ov (evalx G C0 MX f2 d r c) = Some v.
 Proof.
   intros H L. destruct (evalx G C0 MX f1 d r c) as [o c1 e1| |] eqn:E; simpl in H; try discriminate.
@@ -177,7 +182,7 @@ Proof.
   - inversion Hs; subst. simpl. exact I.
   - destruct (re_of G MX n r) as [[R nf]|] eqn:Er; [|discriminate].
     destruct (subs_re (re_of G MX n) rs) as [l'|] eqn:El; [|discriminate]. inversion Hs; subst. clear Hs.
-    cbn [cc2_seq] in Hc. rewrite El in Hc. apply andb_true_iff in Hc. destruct Hc as [C1 C2].
+    cbn [cc2_seq] in Hc. rewrite El in Hc. foldb Hc. apply andb_true_iff in Hc. destruct Hc as [C1 C2].
     simpl. split; [exact (proj1 (IHc r _ R nf C1 Er)) | apply IHrs; [reflexivity | exact C2]].
 Qed.
 
@@ -187,7 +192,7 @@ Proof.
   induction rs as [|a rs0 IHr]; intros l rl El Hc Elast; [discriminate|].
   simpl in El. destruct (re_of G MX n a) as [[Ra nfa]|] eqn:Era; [|discriminate].
   destruct (subs_re (re_of G MX n) rs0) as [l'|] eqn:El'; [|discriminate].
-  cbn [cc2_seq] in Hc. rewrite El' in Hc. apply andb_true_iff in Hc. destruct Hc as [C1 C2].
+  cbn [cc2_seq] in Hc. rewrite El' in Hc. foldb Hc. apply andb_true_iff in Hc. destruct Hc as [C1 C2].
   destruct rs0 as [|b rs1].
   - simpl in Elast. inversion Elast; subst. simpl in El'. inversion El'; subst l'. simpl in C1. eauto.
   - apply (IHr l' rl eq_refl C2). exact Elast.
@@ -200,7 +205,7 @@ Proof.
   - inversion Hs; subst. simpl. exact I.
   - destruct (re_of G MX n r) as [[R nf]|] eqn:Er; [|discriminate].
     destruct (subs_re (re_of G MX n) rs) as [l'|] eqn:El; [|discriminate]. inversion Hs; subst. clear Hs.
-    cbn [cc2_sor] in Hc. rewrite Er, El in Hc. rewrite !andb_true_iff in Hc. destruct Hc as [[[C1 N1] Q1] C2].
+    cbn [cc2_sor] in Hc. rewrite Er, El in Hc. foldb Hc. rewrite !andb_true_iff in Hc. destruct Hc as [[[C1 N1] Q1] C2].
     destruct (IHc r K R nf C1 Er) as [P1 F1].
     simpl. split; [exact P1|]. split; [exact (IHn r _ R nf N1 Er)|]. split; [eapply EV_snd; eauto|]. split; [|apply IHrs; [reflexivity | exact C2]].
     exists (nf2_pred (nfol2 G MX n r K)). split; [exact F1|]. apply (quot2_sem (nfol2 G MX n r K)). exact Q1.
@@ -212,9 +217,9 @@ Proof.
   induction rs as [|r rs IHrs]; intros l L Hs Hc; [exact I|].
   simpl in Hs. destruct (re_of G MX n r) as [[R nf]|] eqn:Er; [|discriminate].
   destruct (subs_re (re_of G MX n) rs) as [l'|] eqn:El; [|discriminate].
-  cbn [nr_seq] in Hc. apply andb_true_iff in Hc. destruct Hc as [N1 Hc].
+  cbn [nr_seq] in Hc. foldb Hc. apply andb_true_iff in Hc. destruct Hc as [N1 Hc].
   cbn [SeqNR]. split; [exact (IHn r L R nf N1 Er)|].
-  apply orb_true_iff in Hc. destruct Hc as [Hp|Hq].
+  foldb Hc. apply orb_true_iff in Hc. destruct Hc as [Hp|Hq].
   - exists R, (fun _ => True). split; [eapply EV_snd; eauto|]. split; [intros; exact I|].
     apply SeqNR_true. eapply pure_subs; eauto. intros. eapply pure_sound; eauto.
   - rewrite Er in Hq. destruct (lq CF R L) as [Q|] eqn:Eq; [|discriminate].
@@ -240,9 +245,9 @@ Proof.
   split.
   - (* ---------------- completeness ---------------- *)
     intros r K R nf Hc Hr. change (cc2 G MX (S n) r K) with (cc2_step G MX (cc2 G MX n) (nr G MX n) n r K) in Hc.
-    unfold cc2_step in Hc. apply orb_true_iff in Hc. destruct Hc as [Hold|Hc].
+    unfold cc2_step in Hc. foldb Hc. apply orb_true_iff in Hc. destruct Hc as [Hold|Hc].
     { (* the fragment of UriComplete.cc, certified by ccf *)
-      rewrite !andb_true_iff in Hold. destruct Hold as [[_ Hnone] Hcc].
+      foldb Hold. rewrite !andb_true_iff in Hold. destruct Hold as [[_ Hnone] Hcc].
       destruct (ccf_sound G MX HG (S n) r K R nf Hcc Hr) as [_ [Cm _]]. split.
       - intros d c Hk M. destruct (Cm d c (proj1 Hk) M) as [c' [E M']]. exists c'. split; [|exact M'].
         unfold EV. eapply lift_ov; [exact E | lia].
@@ -277,7 +282,7 @@ Proof.
     + (* star *)
       destruct (nsubs nd) as [|r1 [|? ?]] eqn:Ens; try discriminate.
       destruct (re_of G MX n r1) as [[R1 nf1]|] eqn:E1; [|discriminate]. simpl in Hr. inversion Hr; subst R nf.
-      cbv zeta in Hc. rewrite !andb_true_iff in Hc. destruct Hc as [[[Nn C1] N1] Q1]. apply negb_true_iff in Nn.
+      cbv zeta in Hc. foldb Hc. rewrite !andb_true_iff in Hc. destruct Hc as [[[Nn C1] N1] Q1]. apply negb_true_iff in Nn.
       destruct (IHc r1 _ R1 nf1 C1 E1) as [P1 F1]. pose proof (IHn r1 _ R1 nf1 N1 E1) as T1.
       pose proof (EV_snd n r1 R1 nf1 E1) as S1. split.
       * intros d c Hk M. rewrite (EV_node n d r c nd En Em). unfold eval_head. rewrite Eh, Ens. cbn [eval_atom].
@@ -291,7 +296,7 @@ Proof.
     + (* plus *)
       destruct (nsubs nd) as [|r1 [|? ?]] eqn:Ens; try discriminate.
       destruct (re_of G MX n r1) as [[R1 nf1]|] eqn:E1; [|discriminate]. simpl in Hr. inversion Hr; subst R nf.
-      cbv zeta in Hc. rewrite !andb_true_iff in Hc. destruct Hc as [[[Nn C1] N1] Q1]. apply negb_true_iff in Nn.
+      cbv zeta in Hc. foldb Hc. rewrite !andb_true_iff in Hc. destruct Hc as [[[Nn C1] N1] Q1]. apply negb_true_iff in Nn.
       destruct (IHc r1 _ R1 nf1 C1 E1) as [P1 F1]. pose proof (IHn r1 _ R1 nf1 N1 E1) as T1.
       pose proof (EV_snd n r1 R1 nf1 E1) as S1. split.
       * intros d c Hk M. rewrite (EV_node n d r c nd En Em). unfold eval_head. rewrite Eh, Ens. cbn [eval_atom].
@@ -305,7 +310,7 @@ Proof.
     + (* partial *)
       destruct (nsubs nd) as [|r1 [|? ?]] eqn:Ens; try discriminate.
       destruct (re_of G MX n r1) as [[R1 nf1]|] eqn:E1; [|discriminate]. simpl in Hr. inversion Hr; subst R nf.
-      rewrite !andb_true_iff in Hc. destruct Hc as [[C1 N1] Q1].
+      foldb Hc. rewrite !andb_true_iff in Hc. destruct Hc as [[C1 N1] Q1].
       destruct (IHc r1 _ R1 nf1 C1 E1) as [P1 F1]. pose proof (IHn r1 _ R1 nf1 N1 E1) as T1. split.
       * intros d c Hk M. rewrite (EV_node n d r c nd En Em). unfold eval_head. rewrite Eh, Ens. cbn [eval_atom].
         apply (h_partial_cmp2 (EV n) B Hgood d r1 R1 K c _ P1 T1 (EV_snd n r1 R1 nf1 E1) F1 (quot2_sem _ _ _ _ Q1) Hk M).
@@ -313,7 +318,7 @@ Proof.
     + (* not_at *)
       destruct (nsubs nd) as [|r1 [|? ?]] eqn:Ens; try discriminate.
       destruct (re_of G MX n r1) as [[R1 nf1]|] eqn:E1; [|discriminate]. simpl in Hr. inversion Hr; subst R nf.
-      rewrite !andb_true_iff in Hc. destruct Hc as [[C1 N1] Q1].
+      foldb Hc. rewrite !andb_true_iff in Hc. destruct Hc as [[C1 N1] Q1].
       destruct (IHc r1 _ R1 nf1 C1 E1) as [P1 _]. pose proof (IHn r1 _ R1 nf1 N1 E1) as T1. split.
       * intros d c Hk M. rewrite (EV_node n d r c nd En Em). unfold eval_head. rewrite Eh, Ens. cbn [eval_atom].
         assert (Mk : matches K (rest c)).
@@ -331,11 +336,11 @@ Proof.
       destruct (nsubs nd) as [|cnd [|m [|? ?]]] eqn:Ens; try discriminate.
       destruct (re_of G MX n cnd) as [[Rc nfc]|] eqn:Ec; [|discriminate].
       destruct (re_of G MX n m) as [[Rm [|]]|] eqn:Emm; try discriminate. inversion Hr; subst R nf.
-      rewrite !andb_true_iff in Hc. destruct Hc as [[C1 C2] Hd].
+      foldb Hc. rewrite !andb_true_iff in Hc. destruct Hc as [[C1 C2] Hd].
       destruct (IHc cnd _ Rc nfc C1 Ec) as [P1 F1]. destruct (IHc m _ Rm true C2 Emm) as [P2 _]. split.
       * intros d c Hk M. rewrite (EV_node n d r c nd En Em). unfold eval_head. rewrite Eh, Ens. cbn [eval_atom].
         apply (h_if_must_cmp2 (EV n) B Hgood dflt d cnd m Rc Rm K c _ P1 P2 (EV_snd n cnd Rc nfc Ec) F1); [|exact Hk | exact M].
-        intros ->. rewrite !andb_true_iff in Hd. destruct Hd as [N1 Q1].
+        intros ->. foldb Hd. rewrite !andb_true_iff in Hd. destruct Hd as [N1 Q1].
         split; [exact (IHn cnd _ Rc nfc N1 Ec) | exact (quot2_sem _ _ _ _ Q1)].
       * apply FolNone. cbn [nfol2]. rewrite En, Em, Eh. reflexivity.
     + (* must *)
@@ -347,8 +352,8 @@ Proof.
       * apply FolNone. cbn [nfol2]. rewrite En, Em, Eh. reflexivity.
   - (* ---------------- no raise ---------------- *)
     intros r L R nf Hc Hr. change (nr G MX (S n) r L) with (nr_step G MX (cc2 G MX n) (nr G MX n) n r L) in Hc.
-    unfold nr_step in Hc. apply orb_true_iff in Hc. destruct Hc as [Hc|Hc].
-    { apply orb_true_iff in Hc. destruct Hc as [He|Hp].
+    unfold nr_step in Hc. foldb Hc. apply orb_true_iff in Hc. destruct Hc as [Hc|Hc].
+    { foldb Hc. apply orb_true_iff in Hc. destruct Hc as [He|Hp].
       - intros d c Hk M. exfalso. eapply re_empty_sound; eauto.
       - eapply NrE_weaken; [eapply pure_sound; eauto | intros; exact I]. }
     cbn [re_of] in Hr. destruct (nth_error G r) as [nd|] eqn:En; [|discriminate].
@@ -369,7 +374,7 @@ Proof.
     + (* star *)
       destruct (nsubs nd) as [|r1 [|? ?]] eqn:Ens; try discriminate.
       destruct (re_of G MX n r1) as [[R1 nf1]|] eqn:E1; [|discriminate].
-      apply andb_true_iff in Hc. destruct Hc as [Nn Hc]. apply negb_true_iff in Nn.
+      foldb Hc. apply andb_true_iff in Hc. destruct Hc as [Nn Hc]. apply negb_true_iff in Nn.
       destruct (lq CF (Star R1) L) as [X|] eqn:Eq; [|discriminate].
       pose proof (IHn r1 X R1 nf1 Hc E1) as T1. pose proof (EV_snd n r1 R1 nf1 E1) as S1.
       set (Iv := fun t : list byte => exists u, matches (Star R1) u /\ bytes_ok (u ++ t) /\ matches L (u ++ t)).
@@ -382,7 +387,7 @@ Proof.
     + (* plus *)
       destruct (nsubs nd) as [|r1 [|? ?]] eqn:Ens; try discriminate.
       destruct (re_of G MX n r1) as [[R1 nf1]|] eqn:E1; [|discriminate].
-      apply andb_true_iff in Hc. destruct Hc as [Nn Hc]. apply negb_true_iff in Nn.
+      foldb Hc. apply andb_true_iff in Hc. destruct Hc as [Nn Hc]. apply negb_true_iff in Nn.
       destruct (lq CF (Star R1) L) as [X|] eqn:Eq; [|discriminate].
       pose proof (IHn r1 X R1 nf1 Hc E1) as T1. pose proof (EV_snd n r1 R1 nf1 E1) as S1.
       set (Iv := fun t : list byte => exists u, matches (Star R1) u /\ bytes_ok (u ++ t) /\ matches L (u ++ t)).
@@ -410,7 +415,7 @@ Proof.
       destruct (nsubs nd) as [|cnd [|m [|? ?]]] eqn:Ens; try discriminate.
       destruct (re_of G MX n cnd) as [[Rc nfc]|] eqn:Ec; [|discriminate].
       destruct (re_of G MX n m) as [[Rm [|]]|] eqn:Emm; try discriminate.
-      apply andb_true_iff in Hc. destruct Hc as [N1 Hc].
+      foldb Hc. apply andb_true_iff in Hc. destruct Hc as [N1 Hc].
       destruct (lq CF Rc L) as [Q|] eqn:Eq; [|discriminate].
       intros d c Hk M. rewrite (EV_node n d r c nd En Em). unfold eval_head. rewrite Eh, Ens. cbn [eval_atom].
       apply (h_if_must_nr (EV n) B Hgood dflt d cnd m Rc c (matches L) (matches Q)
@@ -420,7 +425,7 @@ Proof.
       destruct (nsubs nd) as [|r1 [|? ?]] eqn:Ens; try discriminate.
       destruct (re_of G MX n r1) as [[R1 nf1]|] eqn:E1; [|discriminate].
       destruct (lq CF R1 L) as [Q|] eqn:Eq; [|discriminate].
-      apply andb_true_iff in Hc. destruct Hc as [Hi C1].
+      foldb Hc. apply andb_true_iff in Hc. destruct Hc as [Hi C1].
       destruct (IHc r1 Q R1 nf1 C1 E1) as [P1 _].
       intros d c Hk M. rewrite (EV_node n d r c nd En Em). unfold eval_head. rewrite Eh, Ens. cbn [eval_atom].
       assert (M1 : matches (Cat R1 Q) (rest c)) by (eapply incl_auto_sound; [exact Hi | exact (proj1 Hk) | exact M]).
@@ -448,7 +453,7 @@ Lemma complete_of_cert2 t : complete_cert2 t = true ->
 Proof.
   unfold complete_cert2, uri_re. intros Hc s Hs M.
   destruct (re_of uri_table uri_mx uri_re_depth (uri_root t)) as [[R nf]|] eqn:ER; [|discriminate].
-  apply andb_true_iff in Hc. destruct Hc as [Hi Hcc].
+  foldb Hc. apply andb_true_iff in Hc. destruct Hc as [Hi Hcc].
   assert (MR : matches R s) by (eapply incl_auto_sound; eauto).
   destruct (cc2_accepts uri_table uri_mx uri_table_wf uri_re_depth (uri_root t) R nf s Hcc ER Hs MR) as [f [c' [evs E]]].
   exists f, c', evs. exact E.
